@@ -399,7 +399,8 @@ def wfSection (s : Section) : Bool :=
   | none => checkSectionName s.1 && !s.1.contains Gen.Config.hdrDot
   | some sub => checkSectionName s.1 && wfSubsection sub
 
-def wfKey (k : Bytes) : Bool := checkVariableName k
+/-- non-empty variable names over `isalnum`/`-` (the code also round-trips the empty name; git requires a leading letter) -/
+def wfKey (k : Bytes) : Bool := !k.isEmpty && checkVariableName k
 
 def wfEntries (d : Entries) : Bool := d.all (fun e => wfKey e.1 && wfValue e.2)
 
